@@ -309,6 +309,36 @@ def annotate_closures(b, closures, g, where):
     return b
 
 
+def unroll_array_loops(b, ordinals, g, where):
+    """R39: `for x in [E1, E2, ..] { BODY }` over an array LITERAL => `{ let x = E1; { BODY } } { let x = E2; { BODY } } ..`
+    (the definition of iterating a fixed array; refused when BODY contains `break` or `continue`). Ordinals refer to
+    the body before the rewrite; they are processed from the last to the first, later loops are renumbered."""
+    for k in sorted(ordinals, reverse=True):
+        offs = rustlex.loop_body_offsets(b)
+        if k > len(offs):
+            raise Undecided("%s: R39 loop #%d not found" % (where, k))
+        kw, kwpos, bpos = offs[k - 1]
+        header = b[kwpos:bpos]
+        m = re.match(r"for\s+([A-Za-z_][A-Za-z0-9_]*)\s+in\s+\[(.*)\]\s*$", header, re.S)
+        if kw != "for" or not m:
+            raise Undecided("%s: R39 loop #%d is not a for loop over an array literal: %r" % (where, k, header))
+        var, elems = m.group(1), [e.strip() for e in m.group(2).split(",") if e.strip()]
+        btoks = rustlex.lex(b)
+        bpairs = rustlex.match_brackets(btoks)
+        close = None
+        for o, c in bpairs.items():
+            if btoks[o].start == bpos:
+                close = btoks[c].start
+        body = b[bpos:close + 1]
+        if re.search(r"\b(break|continue)\b", body):
+            raise Undecided("%s: R39 loop #%d: body contains break/continue" % (where, k))
+        new = " ".join("{ let %s = %s; %s }" % (var, e, body) for e in elems)
+        b = b[:kwpos] + new + b[close + 1:]
+        g.rewrites.append({"item": where, "rule": "R39", "loop": k, "old": header.strip(), "new": "one copy of the body per element, with `let %s = <element>;` in front" % var,
+                           "why": "for over an array literal (no Verus support for array IntoIter) -> the body once per element, in order"})
+    return b
+
+
 def desugar_for_ranges(b, ordinals, g, where):
     """R15: `for x in LO..HI { BODY }`  =>  `{ let verif_hi_K = HI; let mut verif_next_K = LO;
     while verif_next_K < verif_hi_K { let x = verif_next_K; verif_next_K += 1; BODY } }`
@@ -700,6 +730,8 @@ def gen_fn(fn, g, probe_labels, unit_name):
         b = apply_rewrites(b, fn.rewrites, g.rewrites, where)
         if getattr(fn, "closures", None):
             b = annotate_closures(b, fn.closures, g, where)
+        if getattr(fn, "unroll", None):
+            b = unroll_array_loops(b, fn.unroll, g, where)
         if getattr(fn, "for_to_while", None):
             b = desugar_for_ranges(b, fn.for_to_while, g, where)
         # loops: insert contracts before the body brace of the k-th loop (ordinals w.r.t. the
